@@ -298,7 +298,7 @@ inline void manyOpen(Ctx& c, long j)
 
 inline long count(Ctx& c)
 {
-    return kSeq5 + 2 + (c.thorough() ? kSeq4x2 + 2000000 : 8000);
+    return kSeq5 + 2 + (c.thorough() ? kSeq4x2 + 2000000 : 40000);
 }
 inline void run(Ctx& c, long idx)
 {
@@ -550,7 +550,7 @@ inline void longGapCase(Ctx& c, long j)
 
 inline long count(Ctx& c)
 {
-    return 400 + 6 + (c.thorough() ? 3000000 : 10000);
+    return 400 + 6 + (c.thorough() ? 3000000 : 40000);
 }
 inline void run(Ctx& c, long idx)
 {
